@@ -40,6 +40,7 @@ import (
 	"fmt"
 	"net"
 	"net/url"
+	"os"
 	"strconv"
 	"strings"
 	"sync"
@@ -558,7 +559,8 @@ func readHead(c net.Conn, br *bufio.Reader) (status int, warning bool, err error
 
 // checkDir: `to` must have received exactly what `from` has sent (skipped once `to` no longer reads).
 func (e *ex) checkDir(what string, from, to *end, dir, fromName, toName string) core.Result {
-	if to.gone() {
+	if to.gone() || from.wroteGone {
+		// the receiver no longer reads, or this direction has already been found dead (sendgone, outlive)
 		return core.Result{}
 	}
 	got, _ := to.snap()
@@ -1072,6 +1074,7 @@ func (e *ex) Do(op string) core.Result {
 		if last.Fail == "" || last.Sig != r.Sig {
 			core.Count("unconfirmed-timing-failure")
 			core.Count("unconfirmed-timing-failure:" + r.Sig)
+			fmt.Fprintf(os.Stderr, "c04: unconfirmed (did not reproduce in run %d of 3): %s: %s\n  ops: %s\n", i+2, r.Sig, r.Fail, strings.Join(e.ops, " ; "))
 			last.Fail, last.Sig = "", ""
 			return last
 		}
